@@ -56,8 +56,20 @@ def query_points(rng, d, n):
 
 class Check(PropertyCheck):
     id = 'C01'
-    lean_targets = ['RegionsVerif.Props.C01', 'RegionsVerif.Props.C01Poly', 'RegionsVerif.Props.C01Cyclic', 'RegionsVerif.Props.C01Tri', 'RegionsVerif.Props.C01Convex', 'RegionsVerif.Props.C01Regular', 'RegionsVerif.Props.C01Rect', 'RegionsVerif.Props.C01Fan', 'RegionsVerif.Props.C01Star', 'RegionsVerif.Bridge.FormulasC01']
-    namespaces = ['RegionsVerif.Props.C01', 'RegionsVerif.Bridge.C01']
+    lean_targets = ['RegionsVerif.Props.C01', 'RegionsVerif.Props.C01Poly', 'RegionsVerif.Props.C01Cyclic', 'RegionsVerif.Props.C01Tri', 'RegionsVerif.Props.C01Convex', 'RegionsVerif.Props.C01Regular', 'RegionsVerif.Props.C01Rect', 'RegionsVerif.Props.C01Fan', 'RegionsVerif.Props.C01Star', 'RegionsVerif.Bridge.FormulasC01', 'RegionsVerif.Bridge.InlineGlueC01']
+    namespaces = ['RegionsVerif.Props.C01', 'RegionsVerif.Bridge.C01', 'RegionsVerif.Bridge.InlineGlueC01']
+
+    def _inline_glue(self):
+        # tie T: normal forms of the glue methods (tools/inlineglue.py, group C01)
+        import importlib.util, os
+        from .common import VERIF
+        spec = importlib.util.spec_from_file_location('inlineglue', os.path.join(VERIF, 'tools', 'inlineglue.py'))
+        mod = importlib.util.module_from_spec(spec)
+        spec.loader.exec_module(mod)
+        return mod.main(['C01'])
+
+    def translate(self):
+        return list(self._translate0()) + list(self._inline_glue())
     rule = ('every shape class x sizes 1e-3..1e6 x centres to 1e6 x any angle in deg/rad/arcmin/hourangle x include flag in '
             '{absent, True, False, 1, 0} x query coordinates scalar / 0-length / 1-D / N-D (C-, Fortran-ordered, transposed and strided views), int or float; query points on a '
             'cloud scaled to the shape and at relative distances 1e-6..1e-1 from its boundary. Non-trivial = the case has at '
@@ -70,7 +82,7 @@ class Check(PropertyCheck):
                       '(C01Tri, C01Convex: open polygon -> true off the fan diagonals of one vertex, off the closed polygon -> false), exact fan decomposition for every polygon, division-free crossing test, '
                       'edge symmetry, translation invariance, independence of the starting vertex and of the direction of traversal, axis rectangles, confinement to the vertex range, parity of straddling edges']
 
-    def translate(self):
+    def _translate0(self):
         # tie T: regenerate Gen/FormulasC01.lean from the current source (tools/py2lean.py)
         import importlib.util, os
         from .common import VERIF
@@ -114,6 +126,14 @@ class Check(PropertyCheck):
                        for (x, y) in pts]
                 if any(abs(x) >= lim or abs(y) >= lim for (x, y) in pts) or abs(cx0) > 10 ** 5:
                     idt = 'int64'
+                # unsigned / 8-bit query arrays when every coordinate is representable (differences with
+                # the centre must not wrap in the query dtype)
+                if rng.random() < 0.6:
+                    for cand in ('uint8', 'int8', 'uint16', 'uint32'):
+                        info = np.iinfo(cand)
+                        if all(info.min <= x <= info.max and info.min <= y <= info.max for (x, y) in pts):
+                            idt = cand
+                            break
             cases.append(G.add_history(rng, {'kind': d['kind'], 'region': d, 'qshape': qs, 'int': integer, 'idtype': idt,
                                              'pts': [[x, y] for (x, y) in pts]}))
         return cases
